@@ -149,10 +149,15 @@ structure Result where
   originZone : Option Zone
   deriving Repr, DecidableEq, Inhabited
 
+/-- `target_zone` (apilistener.cpp:1340-1350): the zone of `secobj`, the local zone when there is no object or it
+    has no zone attribute -/
+def targetZone (T : Topo) (self : Ep) (objZone : Option Zone) : Zone :=
+  match objZone with | some z => z | none => T.zoneOf self
+
 /-- `ApiListener::SyncRelayMessage` (apilistener.cpp:1328-1363).  `objZone` is the zone of `secobj` (`none`: no
-    object or no zone attribute ⇒ the local zone, :1349-1350); `log` the caller's flag. -/
+    object or no zone attribute); `log` the caller's flag. -/
 def relayFuel (fuel : Nat) (T : Topo) (self : Ep) (o : Origin) (objZone : Option Zone) (log : Bool) : Result :=
-  let tz := match objZone with | some z => z | none => T.zoneOf self
+  let tz := targetZone T self objZone
   let m := getMaster T self
   let outs := (tz :: allParents T fuel tz).map (relayOne T self o m)
   ⟨outs.flatMap (·.sent), outs.flatMap (·.skipped), log && outs.any (fun r => !r.ok), o.fromZone⟩
